@@ -1,0 +1,77 @@
+// Licensed to Elasticsearch B.V. under one or more contributor
+// license agreements. See the NOTICE file distributed with
+// this work for additional information regarding copyright
+// ownership. Elasticsearch B.V. licenses this file to you under
+// the Apache License, Version 2.0 (the "License"); you may
+// not use this file except in compliance with the License.
+// You may obtain a copy of the License at
+//
+//     http://www.apache.org/licenses/LICENSE-2.0
+//
+// Unless required by applicable law or agreed to in writing,
+// software distributed under the License is distributed on an
+// "AS IS" BASIS, WITHOUT WARRANTIES OR CONDITIONS OF ANY
+// KIND, either express or implied.  See the License for the
+// specific language governing permissions and limitations
+// under the License.
+
+//go:build verif
+
+package libaudit
+
+import "sync/atomic"
+
+// verifYieldHook holds a func(*Reassembler, string). It is only present in
+// builds with the "verif" tag and is used by external verification harnesses
+// to observe (and schedule) the points between the Reassembler's atomic steps.
+var verifYieldHook atomic.Value
+
+// VerifSetYieldHook installs fn as the yield hook (nil removes it).
+func VerifSetYieldHook(fn func(r *Reassembler, point string)) {
+	if fn == nil {
+		fn = func(*Reassembler, string) {}
+	}
+	verifYieldHook.Store(fn)
+}
+
+func verifYield(r *Reassembler, point string) {
+	if fn, ok := verifYieldHook.Load().(func(*Reassembler, string)); ok {
+		fn(r, point)
+	}
+}
+
+// VerifEventSnapshot describes one buffered event.
+type VerifEventSnapshot struct {
+	Sequence uint32
+	Complete bool
+	Messages int
+}
+
+// VerifSnapshot is a consistent copy of the Reassembler's buffered state.
+type VerifSnapshot struct {
+	Seqs    []uint32             // the ordered sequence list
+	Events  []VerifEventSnapshot // one entry per key of the event table (unordered)
+	LastSeq uint32
+	MaxSize int
+}
+
+// VerifSnapshot returns a copy of the buffered state taken under the list's
+// own mutex.
+func (r *Reassembler) VerifSnapshot() VerifSnapshot {
+	l := r.list
+	l.Lock()
+	defer l.Unlock()
+
+	s := VerifSnapshot{LastSeq: uint32(l.lastSeq), MaxSize: l.maxSize}
+	for _, seq := range l.seqs {
+		s.Seqs = append(s.Seqs, uint32(seq))
+	}
+	for seq, e := range l.events {
+		s.Events = append(s.Events, VerifEventSnapshot{
+			Sequence: uint32(seq),
+			Complete: e.complete,
+			Messages: len(e.msgs),
+		})
+	}
+	return s
+}
